@@ -19,12 +19,12 @@ PROP = dict(
     stub_notes=["tracing without subscriber (debug! only)"],
     harnesses=[
         H(NH, "c33", "c33_accept", "Ok => stratum below local, reachable, not this daemon, (stratum>1 => reference id not a local address), server id not in the Bloom filter; "
-          "outside the two known-defect regions", timeout=300),
+          "outside the two known-defect regions", timeout=600),
         H(NH, "c33", "c33_accept_kf_refid", "KNOWN DEFECT region: source at stratum > 1 whose REFERENCE id is a local address (it synchronises to us) is accepted: "
-          "the code compares source_id, never reference_id (source.rs:232-236)", timeout=300),
+          "the code compares source_id, never reference_id (source.rs:232-236)", timeout=600),
         H(NH, "c33", "c33_accept_kf_self_stratum1", "KNOWN DEFECT region: source whose own id is a local address and that reports stratum 1 is accepted: "
-          "the only identifier comparison is skipped when stratum == 1", timeout=300),
+          "the only identifier comparison is skipped when stratum == 1", timeout=600),
         H(NH, "c33", "c33_adv", "advertised stratum = primary source stratum + 1 (saturating) and reference id = its source id, local stratum / none when no source; "
-          "own server id in the advertised filter", timeout=300),
+          "own server id in the advertised filter", timeout=600),
     ],
 )
